@@ -22,7 +22,7 @@ LEVEL_TEXT = ("All sequences up to length 4 (quick) / 6 (thorough) over a 12-ope
 LEVEL_NOTE = "Trusts numpy and icontract; the record-level clause (pid strictly increasing, pid[k] >= k in every output record) is asserted by the shared output checker in the end-to-end checks (C06, C09, C14 ...)."
 RULE = ("case = all operation sequences of the given length with a fixed two-operation prefix (exhaustive family) or a batch of random sequences; "
         "non-trivial sequence: contains an append, a kill and a compactify followed by another append (the pid-reuse / misalignment pattern); distinct by sequence.")
-MANDATORY = ["e2e_warm_start_with_a_new_defaulted_particle_variable", "e2e_warm_start_without_particle_variables", "in_place_update_after_assignment_from_another_variable", "append_after_compactify", "kill_then_compactify", "invariant_evaluations", "shadow_comparisons", "particle_variable_follow_pid", "e2e_split_files_checked", "e2e_particle_values_compared"]
+MANDATORY = ["e2e_warm_start_from_a_file_whose_last_record_is_empty", "e2e_warm_start_with_a_new_defaulted_particle_variable", "e2e_warm_start_without_particle_variables", "in_place_update_after_assignment_from_another_variable", "append_after_compactify", "kill_then_compactify", "invariant_evaluations", "shadow_comparisons", "particle_variable_follow_pid", "e2e_split_files_checked", "e2e_particle_values_compared"]
 ASSUMPTIONS = ["single-threaded use of State (ladim has no threads)"]
 EXHAUSTIVE = {"quick": True, "thorough": True}
 TIMEOUT = {"quick": 600, "thorough": 3000}
@@ -259,6 +259,9 @@ def run_e2e(case: dict[str, Any], wd: Path) -> dict[str, Any]:
         # output without particle variables, and a continuation warm-started from its first file: identifiers go on where they stopped
         p.update(pvars=False, warm=True, layout="sparse", warm_new_pvar=bool(case["idx"] % 2), numrec=3,
                  releases=[[0, 3], [1, 1], [ns - 2, 2]], kills={1: [0], ns - 1: [2]})  # a death before the restart record (step 2), a release after it
+    if case["idx"] % 6 == 2:
+        # everybody dies before the restart record, which is therefore empty; a later release must still get new identifiers and nobody comes back
+        p.update(pvars=True, warm=True, layout="sparse", numrec=3, releases=[[0, 3], [ns - 2, 2]], kills={1: "all"})
     out = outscn.run_and_check(p, wd)
     V = list(out["V"])
     if p.get("warm") and out["cnt"].get("warm_runs"):
@@ -277,7 +280,8 @@ def run_e2e(case: dict[str, Any], wd: Path) -> dict[str, Any]:
         V.append(C.viol(f"end-to-end run did not complete: {out['res'].exc}", params=p))
     sit = dict(e2e_split_files_checked=len(out["files"]), e2e_particle_values_compared=out["cnt"].get("particle_values_compared", 0),
                e2e_warm_start_with_a_new_defaulted_particle_variable=int(bool(p.get("warm_new_pvar") and out["cnt"].get("warm_runs"))),
-               e2e_warm_start_without_particle_variables=int(bool(p.get("warm") and out["cnt"].get("warm_runs"))))
+               e2e_warm_start_from_a_file_whose_last_record_is_empty=int(out["cnt"].get("warm_runs_from_an_empty_last_record", 0)),
+               e2e_warm_start_without_particle_variables=int(bool(p.get("warm") and not p.get("pvars", True) and out["cnt"].get("warm_runs"))))
     return C.result(V[:3], sit, out["cnt"], nontrivial=len(out["files"]) > 1, key=f"e2e|{case['idx']}", sample=dict(params=p, files=[f.path.name for f in out["files"]]))
 
 
